@@ -17,8 +17,8 @@ def run(ctx):
                 "mutation followed by another call; distinct by (history, profile).")
     ctx.trusted += ["gamma materialisation", "reference encoders for import payloads"]
     runs = [
-        ("C05_2x2_sim", 2, 2, "simulate", 40 if not thorough else 350, 12),
-        ("C05_2x2_d3", 2, 2, "bfs" if thorough else "simulate", 100, 3),
+        ("C05_2x2_sim", 2, 2, "simulate", 40 if not thorough else 120, 12),
+        ("C05_2x2_d3", 2, 2, "simulate", 100 if not thorough else 1200, 3)   # BFS = 1.3 M histories: sampled,
     ]
     if thorough:
         runs.append(("C05_2x1_d4", 2, 1, "bfs", None, None))
